@@ -65,7 +65,7 @@ func (m *memoryStore) GetTokenResponse(ctx context.Context, sessionID string) (*
 	m.mu.Lock()
 	defer m.mu.Unlock()
 
-	s := m.sessions[sessionID]
+	s := m.getLive(sessionID)
 	if s == nil {
 		return nil, nil
 	}
@@ -92,7 +92,7 @@ func (m *memoryStore) GetAuthorizationState(ctx context.Context, sessionID strin
 	m.mu.Lock()
 	defer m.mu.Unlock()
 
-	s := m.sessions[sessionID]
+	s := m.getLive(sessionID)
 	if s == nil {
 		return nil, nil
 	}
@@ -109,7 +109,7 @@ func (m *memoryStore) ClearAuthorizationState(ctx context.Context, sessionID str
 	m.mu.Lock()
 	defer m.mu.Unlock()
 
-	if s := m.sessions[sessionID]; s != nil {
+	if s := m.getLive(sessionID); s != nil {
 		s.accessed = m.clock.Now()
 		s.authorizationState = nil
 	}
@@ -133,21 +133,13 @@ func (m *memoryStore) RemoveAllExpired(ctx context.Context) error {
 	log := m.log.Context(ctx)
 	log.Debug("removing expired sessions")
 
-	var (
-		earliestTimeAddedToKeep    = m.clock.Now().Add(-m.absoluteSessionTimeout)
-		earliestTimeIdleToKeep     = m.clock.Now().Add(-m.idleSessionTimeout)
-		shouldCheckAbsoluteTimeout = m.absoluteSessionTimeout > 0
-		shouldCheckIdleTimeout     = m.idleSessionTimeout > 0
-	)
+	now := m.clock.Now()
 
 	m.mu.Lock()
 	defer m.mu.Unlock()
 
 	for sessionID, s := range m.sessions {
-		expiredBasedOnTimeAdded := shouldCheckAbsoluteTimeout && s.added.Before(earliestTimeAddedToKeep)
-		expiredBasedOnIdleTime := shouldCheckIdleTimeout && s.accessed.Before(earliestTimeIdleToKeep)
-
-		if expiredBasedOnTimeAdded || expiredBasedOnIdleTime {
+		if m.isExpired(s, now) {
 			log.Debug("removing expired session", "session-id", sessionID)
 			delete(m.sessions, sessionID)
 		}
@@ -163,7 +155,7 @@ func (m *memoryStore) set(ctx context.Context, sessionID string, setter func(s *
 	m.mu.Lock()
 	defer m.mu.Unlock()
 
-	s := m.sessions[sessionID]
+	s := m.getLive(sessionID)
 	if s != nil {
 		s.accessed = m.clock.Now()
 		setter(s)
@@ -174,6 +166,26 @@ func (m *memoryStore) set(ctx context.Context, sessionID string, setter func(s *
 	}
 
 	log.Debug("updating last access", "accessed", s.accessed)
+}
+
+// getLive returns the session with the given ID if it exists and has not exceeded the configured
+// timeouts. Expired sessions are removed, so that the timeouts are enforced on every access and not
+// only when RemoveAllExpired is called. The caller must hold the lock.
+func (m *memoryStore) getLive(sessionID string) *session {
+	s := m.sessions[sessionID]
+	if s != nil && m.isExpired(s, m.clock.Now()) {
+		delete(m.sessions, sessionID)
+		return nil
+	}
+	return s
+}
+
+// isExpired returns true if the session has exceeded the absolute or the idle session timeout.
+// A zero timeout means that the corresponding limit is not enforced.
+func (m *memoryStore) isExpired(s *session, now time.Time) bool {
+	expiredBasedOnTimeAdded := m.absoluteSessionTimeout > 0 && s.added.Before(now.Add(-m.absoluteSessionTimeout))
+	expiredBasedOnIdleTime := m.idleSessionTimeout > 0 && s.accessed.Before(now.Add(-m.idleSessionTimeout))
+	return expiredBasedOnTimeAdded || expiredBasedOnIdleTime
 }
 
 // session holds the data of a session stored in the in-memory cache
